@@ -6,7 +6,7 @@ alpha / bootstraps, the `2.0 *` of the two-sided tail and the range-query mode o
 """
 import ast
 import os
-from ..translate import parse, find_func, func_defaults
+from ..translate import seg, parse, find_func, func_defaults
 
 NAME = "StatsConsts"
 # constants of cnvlib/descriptives.py that harness/extractors/descriptives.py (C19) already generates with the
@@ -20,7 +20,7 @@ def _num_default(fn, src, name):
     d = fn.args.defaults
     for a, v in zip(args[len(args) - len(d):], d):
         if a.arg == name:
-            return ast.literal_eval(v), ast.get_source_segment(src, v)
+            return ast.literal_eval(v), seg(src, v)
     raise KeyError(name)
 
 
@@ -29,11 +29,11 @@ def _mult_consts(fn, src):
     out = []
     for n in ast.walk(fn):
         if isinstance(n, ast.AugAssign) and isinstance(n.op, ast.Mult) and isinstance(n.value, ast.Constant):
-            out.append((n.value.value, ast.get_source_segment(src, n.value)))
+            out.append((n.value.value, seg(src, n.value)))
         if isinstance(n, ast.BinOp) and isinstance(n.op, ast.Mult):
             for side in (n.left, n.right):
                 if isinstance(side, ast.Constant) and isinstance(side.value, float):
-                    out.append((side.value, ast.get_source_segment(src, side)))
+                    out.append((side.value, seg(src, side)))
     return out
 
 
